@@ -53,7 +53,7 @@ def fill (rows columns : Nat) (v : α) : Matrix α := ⟨List.replicate (rows * 
 /-- a tensor produced entry by entry in row-major order (`map`, `from_fn`, the
     `iter_reference_mut().with_index()` loops) -/
 def ofFn (rows columns : Nat) (f : Nat → Nat → α) : Matrix α :=
-  ⟨(List.range rows).flatMap fun i => (List.range columns).map fun j => f i j, rows, columns⟩
+  ⟨(List.range (rows * columns)).map fun k => f (k / columns) (k % columns), rows, columns⟩
 
 end
 
